@@ -116,6 +116,9 @@ pub enum Ev {
     Pend { wake: Wake, spurious: u8 },
     /// one-shot error that consumes no data
     Fail(ErrKind),
+    /// the call during which this event is reached takes that many milliseconds: the clock seam (LD_PRELOAD
+    /// clock_gettime) jumps forward, nothing really waits; then the next event is processed
+    Slow(u16),
 }
 
 #[derive(Clone, Copy, Debug, PartialEq, Eq, Serialize, Deserialize)]
@@ -160,6 +163,7 @@ pub struct SrcStats {
     pub natural_eof_reads: u64,
     pub fallback_gives: u64,
     pub max_request: u64,
+    pub slow_calls: u64,
 }
 
 impl SrcStats {
@@ -171,6 +175,7 @@ impl SrcStats {
         self.pend_inline += o.pend_inline;
         self.pend_after += o.pend_after;
         self.pend_cross += o.pend_cross;
+        self.slow_calls += o.slow_calls;
         self.blocked_polls += o.blocked_polls;
         self.fail_events += o.fail_events;
         self.fault_eof_hits += o.fault_eof_hits;
@@ -517,6 +522,12 @@ impl SrcState {
                                 self.pend_positions.push(self.pos as u32);
                             }
                             return Step::Pend(wake, spurious);
+                        }
+                        Ev::Slow(ms) => {
+                            if crate::hashseed::advance_clock_ms(ms as u32) {
+                                self.stats.slow_calls += 1;
+                            }
+                            continue;
                         }
                         Ev::Fail(k) => {
                             self.stats.fail_events += 1;
